@@ -22,9 +22,11 @@ ExpReadable(T, k) ==
   ELSE IF \A i \in DOMAIN T.obj[k] : Present(T, T.obj[k][i]) THEN "ok" ELSE "error"
 
 mRes(T, e)  == T.res = e.res
-mIds(T, e)  == Len(e.st.reg) = T.nid - 1 /\ Len(e.st.info) = T.nid - 1
-mReg(T, e)  == mIds(T, e) /\ \A i \in 1..(T.nid - 1) : e.st.reg[i] = T.reg[i]
-mInfo(T, e) == mIds(T, e) /\ \A i \in 1..(T.nid - 1) : e.st.info[i].c = T.info[i].c /\ e.st.info[i].st = T.info[i].st
+\* ids the real storage can show: the id of an open slow put is not visible yet
+Vis(T)      == T.nid - 1 - (IF T.slow.act THEN 1 ELSE 0)
+mIds(T, e)  == Len(e.st.reg) = Vis(T) /\ Len(e.st.info) = Vis(T)
+mReg(T, e)  == mIds(T, e) /\ \A i \in 1..Vis(T) : e.st.reg[i] = T.reg[i]
+mInfo(T, e) == mIds(T, e) /\ \A i \in 1..Vis(T) : e.st.info[i].c = T.info[i].c /\ e.st.info[i].st = T.info[i].st
 mObj(T, e)  == \A k \in Keys : e.st.obj[k] = T.obj[k]
 mUpl(T, e)  == \A u \in Uploads : /\ e.st.upl[u].act = T.upl[u].act
                                   /\ e.st.upl[u].parts = T.upl[u].parts
@@ -47,7 +49,7 @@ Differs(T, e) ==
        [] x = "gc" -> ~mGc(T, e)     [] x = "rd" -> ~mRd(T, e)}
 
 Proj(T) == [res |-> T.res, obj |-> T.obj, upl |-> T.upl,
-            reg |-> [i \in 1..(T.nid - 1) |-> T.reg[i]], info |-> [i \in 1..(T.nid - 1) |-> T.info[i]],
+            reg |-> [i \in 1..Vis(T) |-> T.reg[i]], info |-> [i \in 1..Vis(T) |-> T.info[i]], slow |-> T.slow,
             ddx |-> T.ddx, phys |-> T.phys, stray |-> T.stray,
             gc |-> [pc |-> T.gc.pc, st |-> T.gc.st, cand |-> T.gc.cand, ext |-> T.gc.ext, xid |-> T.gc.xid,
                     dirty |-> T.gc.dirty, cut |-> T.gc.cut],
@@ -63,6 +65,8 @@ Applicable(T, a) ==
                                    ELSE {Call("RdRead", "", "", "", "", 0, "", 0)}
             [] T.rd.st = "done" -> {Call("RdClose", "", "", "", "", 0, "", 0)})
     [] a.op \in {"RegDrop", "RegOver"} -> T.obj[a.k] # <<>>
+    [] a.op = "PutBegin" -> ~T.slow.act
+    [] a.op = "PutCommit" -> T.slow.act
     [] OTHER -> TRUE
 
 \* state adopted from the log (after a crash and restart of the real storage)
